@@ -23,7 +23,7 @@ use serde::{Deserialize, Serialize};
 use serde_json::{Value, json};
 use std::collections::{BTreeMap, HashMap};
 
-pub const TX_NAMES: [&str; 5] = ["T1", "T2", "T2x", "Ta", "Tb"];
+pub const TX_NAMES: [&str; 6] = ["T1", "T2", "T2x", "Ta", "Tb", "T3"];
 
 pub struct TxUniverse {
     pub txs: BTreeMap<&'static str, TransactionView>,
@@ -37,17 +37,20 @@ impl TxUniverse {
         let t2x = simple_tx(cons, &[out(&t1, 0), g[1].clone()], 2, 3_000_000, 3);
         let ta = simple_tx(cons, &g[2..3], 1, 4_000_000, 4);
         let tb = simple_tx(cons, &g[2..4], 1, 5_000_000, 5);
+        // spends T1's second output: a block committing T2 and T3 spends two outputs of one transaction
+        let t3 = simple_tx(cons, &[out(&t1, 1)], 1, 6_000_000, 6);
         let mut txs = BTreeMap::new();
         txs.insert("T1", t1);
         txs.insert("T2", t2);
         txs.insert("T2x", t2x);
         txs.insert("Ta", ta);
         txs.insert("Tb", tb);
+        txs.insert("T3", t3);
         TxUniverse { txs }
     }
     fn parent(name: &str) -> Option<&'static str> {
         match name {
-            "T2" | "T2x" => Some("T1"),
+            "T2" | "T2x" | "T3" => Some("T1"),
             _ => None,
         }
     }
@@ -208,7 +211,7 @@ fn designed() -> Vec<(UniverseSpec, bool)> {
         // in-block chain on A, conflicting spend of T1's output on B, fork straddles epoch boundary (prefix 2: heights 3..6)
         (UniverseSpec { prefix: 2, a: BranchSpec { commits: s(&[&["T1", "T2"], &["Ta"], &[], &[]]), uncle_at: None }, b: BranchSpec { commits: s(&[&["T1"], &["T2x"], &["Tb"]]), uncle_at: None } }, true),
         // same txs re-committed across the fork at different heights, uncle on B (same epoch: prefix 4 -> heights 5..7)
-        (UniverseSpec { prefix: 4, a: BranchSpec { commits: s(&[&["T1"], &["T2", "Ta"], &[], &[]]), uncle_at: None }, b: BranchSpec { commits: s(&[&[], &["T1", "T2", "Ta"], &[]]), uncle_at: Some(1) } }, true),
+        (UniverseSpec { prefix: 4, a: BranchSpec { commits: s(&[&["T1"], &["T2", "T3", "Ta"], &[], &[]]), uncle_at: None }, b: BranchSpec { commits: s(&[&[], &["T1", "T2", "Ta"], &["T3"]]), uncle_at: Some(1) } }, true),
         // nothing on A, everything on B; then A overtakes again with empty blocks
         (UniverseSpec { prefix: 2, a: BranchSpec { commits: s(&[&[], &[], &[], &[]]), uncle_at: None }, b: BranchSpec { commits: s(&[&["T1", "T2x", "Tb"], &[], &[]]), uncle_at: None } }, false),
         // a block of B commits a transaction the node has never verified next to one it has already
